@@ -415,7 +415,9 @@ C05(scn, obs) ==
       \cup (IF d.herr # 0 \/ (scn.hd.end.how = "barehttp" /\ d.form # "connect_post") THEN {} ELSE
              (IF c.lost = <<>> THEN {} ELSE {"C05.ResponseHeaders"})
              \* (the property defines a trailer position for the four RPC client forms, none for REST)
-             \cup (IF c.end.lost = <<>> \/ scn.cl.form = "rest" THEN {} ELSE {"C05.Trailers"})
+             \* (... and on a pass-through route a trailers-only response with prefixed trailer keys reaches the client
+             \*  exactly as the handler wrote it: what a client makes of that is between the two of them - C13)
+             \cup (IF c.end.lost = <<>> \/ scn.cl.form = "rest" \/ (scn.hd.end.how = "trailersonly" /\ c.raw) THEN {} ELSE {"C05.Trailers"})
              \cup (IF c.end.leak = <<>> THEN {} ELSE {"C05.StatusKeyLeak"}))
 
 (***************************************************************************)
